@@ -26,7 +26,7 @@ LEVEL_NOTE = ('Text compared to printed precision (%10.3f -> 5e-4 absolute, %10.
 RULE = ("cases: (permutation, format, column variant); executions: one call per (function, selector, input form, additional), one evaluation per printed row; non-trivial = distinct "
         "(case, function, selector, form) with a non-identity permutation and at least one fit kept")
 ASSUMPTIONS = ["package self-consistent: convolved files and parameter table share the row order", "model names unique"]
-REQUIRED_CLASSES = ['parameter-values-beyond-single-precision', 'some-sources-keep-fits-others-none', 'one-object-listed-twice', 'keeps-none', 'keeps-one', 'keeps-some', 'keeps-all', 'form-file', 'form-object', 'form-list', 'additional-1', 'additional-2', 'nan-column', 'four-columns',
+REQUIRED_CLASSES = ['file-with-a-stored-zero-fit-record', 'parameter-values-beyond-single-precision', 'some-sources-keep-fits-others-none', 'one-object-listed-twice', 'keeps-none', 'keeps-one', 'keeps-some', 'keeps-all', 'form-file', 'form-object', 'form-list', 'additional-1', 'additional-2', 'nan-column', 'four-columns',
                     'write_parameters', 'write_parameter_ranges', 'extract_parameters', 'filter_table', 'plot-params-table', 'permuted', 'parameters-gz', 'parameter-file-rewritten', 'model-name-column-not-first', 'extract-explicit-parameter-list', 'flag-changed-in-place-between-listings', 'second-package-same-names']
 TIMEOUT = {'quick': 600, 'thorough': 3000}
 
@@ -84,7 +84,8 @@ def run_case(ctx, case, rec, d):
     if case['n_cols'] == 4:
         rec.cls('four-columns')
     # two additional parameters are inserted in non-alphabetical order (columns follow the dictionary's order)
-    adds = [{}, {'ADD1': {nm: 100.0 + 3 * i for i, nm in enumerate(names)}},
+    # (the first value of ADD1 is a python int, the others are not whole numbers)
+    adds = [{}, {'ADD1': {nm: (100 if i == 0 else 100.625 + 3 * i) for i, nm in enumerate(names)}},
             {'ZETA': {nm: 100.0 + 3 * i for i, nm in enumerate(names)}, 'ALPHA': {nm: 0.001 * (i + 1) for i, nm in enumerate(names)}}]
     cfg = (tuple(perm), case['fmt'], case['n_cols'], case['nan'])
     rec.state(cfg)
@@ -327,6 +328,21 @@ def run_case(ctx, case, rec, d):
             if got_n != n:
                 rec.violation('%s|rows' % fname, {'same_object': True, 'calls': [['N', 1], ['A', 0]]},
                               {'problem': 'the same result object listed with (N,1) and then with (A): the second listing has n_fits = %d, the result holds %d fits' % (got_n, n)})
+    # ---- a file in which the middle record was STORED with no fit at all (an output selector nothing passed): every listing
+    # still has a line for that source, with n_fits = 0
+    infos_z = pc.fit_all(fitter, srcs)
+    infos_z[1].keep(('N', 0))
+    path_z = pc.write_file(os.path.join(d, 'fits_zero.out'), infos_z)
+    for fname, fn in (('write_parameters', sedfitter.write_parameters), ('write_parameter_ranges', sedfitter.write_parameter_ranges)):
+        oz = os.path.join(d, 'zero_%s.txt' % fname)
+        if _guard(rec, fname, {'stored_zero_fit_record': True}, lambda: fn(path_z, oz, select_format=('A', 0))):
+            rec.trans()
+            rec.ev()
+            rec.cls('file-with-a-stored-zero-fit-record')
+            got_z = [(b['source'], b['n_fits']) for b in (pc.parse_write_parameters(oz)[1] if fname == 'write_parameters' else pc.parse_ranges(oz))]
+            want_z = [(srcs[0][0], n), (srcs[1][0], 0), (srcs[2][0], n)]
+            if got_z != want_z:
+                rec.violation('%s|rows' % fname, {'stored_zero_fit_record': True}, {'problem': 'sources and n_fits listed: %r, the file holds %r' % (got_z, want_z)})
     # ---- n_data is the source's count of fitted points NOW: a flag changed in place between two listings is honoured
     infos_live = pc.fit_all(fitter, srcs)
     out_a = os.path.join(d, 'live_a.txt')
